@@ -2,7 +2,7 @@
 //!
 //! Nothing in this module exists in a normal build. With the feature on, the interpreter calls
 //! through one process-global table of plain `fn` pointers at a handful of sites (instruction
-//! boundaries, heap allocation / release / dereference, `print`, collector runs). A test harness
+//! boundaries, compilation steps, heap allocation / release / dereference, `print`, collector runs). A test harness
 //! installs the table once with [`install`]; while no table is installed every hook is a no-op and
 //! the interpreter behaves exactly as without the feature.
 
@@ -71,6 +71,9 @@ pub struct Hooks {
     pub print: fn(&str) -> bool,
     /// A collector started / finished a collection or is being dropped
     pub gc: fn(GcEvent, &GC),
+    /// The compiler is about to compile a statement or an expression (any nesting depth); returning
+    /// true makes the compilation fail from here (the exit path every compile-time error takes)
+    pub compile: fn() -> bool,
 }
 
 static HOOKS: OnceLock<Hooks> = OnceLock::new();
@@ -130,6 +133,14 @@ pub(crate) fn print(text: &str) -> bool {
 pub(crate) fn gc(event: GcEvent, gc: &GC) {
     if let Some(h) = HOOKS.get() {
         (h.gc)(event, gc)
+    }
+}
+
+#[inline]
+pub(crate) fn compile_step() -> bool {
+    match HOOKS.get() {
+        Some(h) => (h.compile)(),
+        None => false,
     }
 }
 
